@@ -48,6 +48,8 @@ UNITS = [
     T("tf_init_zero", ["a_tf_init", "a_tf_zero", "a_tf_set_num", "a_tf_set_den"], key=["back to the initial state", "init: pointers"], min_obl=20),
     T("push_fore", ["a_real_push_fore"], unwind=10, level="B", bound="n <= 8 (length concrete on every path)", key=["entry w is the old entry w-1", "also for n == 1"], min_obl=10),
     T("push_back", ["a_real_push_back"], unwind=10, level="B", bound="n <= 8 (length concrete on every path)", key=["entry w is the old entry w\\+1", "also for n == 1"], min_obl=10),
+    T("tf_iter_spot", ["a_tf_iter"], unwind=6, level="B", bound=BD + "; two concrete integer vectors (a test backing tf_iter_equation_*: for a wrong formula the solver may not produce a counterexample in time)",
+      key=["concrete vectors"], min_obl=50, cbmc=["--object-bits", "12"]),
     T("lpf", ["a_lpf_iter", "a_lpf_zero", "a_lpf_init"], solver="cvc5", split=4, key=["documented convex combination", "alpha = 1 passes"], cost=60),
     T("hpf", ["a_hpf_iter", "a_hpf_zero", "a_hpf_init"], solver="cvc5", split=4, key=["output = alpha\\*\\(output \\+ x - previous input\\)"], cost=30),
 ] + [
